@@ -10,20 +10,29 @@ sys.path.insert(0, "lib")
 import vlib
 vlib.coq_prepare()
 PY
-# full .vo build of the whole development (never -vos/-vok)
-timeout 3000 make -C coq -j16 > scratch/setup_coq.log 2>&1 || { tail -50 scratch/setup_coq.log; exit 1; }
-# harness, release and debug
-[ -f harness/Cargo.lock ] || cp /repo/Cargo.lock harness/Cargo.lock
-(cd harness && cargo build --offline --release --bins -q 2>scratch_build.log || { tail -50 scratch_build.log; exit 1; })
-rm -f harness/scratch_build.log
-# extracted models
-for d in ocaml/*/; do
-  [ -f "$d/extract.v" ] || continue
-  python3 - "$d" <<'PY'
-import sys, os
+# full .vo build (never -vos/-vok) of everything the claimed properties depend on, plus harness
+# binaries and extracted models of the claimed properties; work in progress for unclaimed
+# properties is not built here
+python3 - <<'PY'
+import json, os, sys, subprocess
 sys.path.insert(0, "lib")
 import vlib
-vlib.ocaml_build(os.path.basename(os.path.normpath(sys.argv[1])))
+m = json.load(open("MANIFEST.json"))
+props = [c["property_id"] for c in m["checks"]]
+targets = ["Properties/%s.vo" % p for p in props if os.path.exists("coq/Properties/%s.v" % p)]
+if targets:
+    vlib.coq_make(targets, timeout=3000)
+if not os.path.exists("harness/Cargo.lock"):
+    import shutil; shutil.copy("/repo/Cargo.lock", "harness/Cargo.lock")
+bins = [p.lower() for p in props if os.path.exists("harness/src/bin/%s.rs" % p.lower())]
+for b in bins:
+    feats = ("verif_hooks",) if b in ("c12",) else ()
+    try:
+        vlib.harness_build([b], features=feats)
+    except vlib.BrokenTie as e:
+        print("harness build failed for", b, e.detail[-3000:]); sys.exit(1)
+for p in props:
+    if os.path.exists("ocaml/%s/extract.v" % p.lower()):
+        vlib.ocaml_build(p.lower())
+print("setup ok")
 PY
-done
-echo setup ok
